@@ -44,6 +44,14 @@ Definition jrfc (r : option (Z * option (list N) * bool)) : jv :=
   | Some (o, n, d) => JL [JZ o; (match n with Some n' => JL [JS n'] | None => JL [] end); jbool d]
   end.
 
+(* what datetime makes of a tzinfo's answers: utcoffset() and dst() must lie strictly within one day,
+   otherwise aware-datetime methods raise ValueError *)
+Definition datetime_view (r : res (Z * Z * list N)) : res (Z * Z * list N) :=
+  match r with
+  | Ok (o, d, n) => if (Z.abs o <? 86400)%Z && (Z.abs d <? 86400)%Z then Ok (o, d, n) else ValueErr
+  | e => e
+  end.
+
 Definition dispatch_c12 (f : list N) (a : jv) : option jv :=
   if tzis f "tz_get_transitions" then
     Some match a with
@@ -58,7 +66,7 @@ Definition dispatch_c12 (f : list N) (a : jv) : option jv :=
              match vtz_of l, jv_Zs ts with
              | Some v, Some ts' =>
                  match pytz_create v with
-                 | Ok ti => JL (map (fun t => tz_jres jinfo (pytz_fromutc (fst ti) (snd ti) t)) ts')
+                 | Ok ti => JL (map (fun t => tz_jres jinfo (datetime_view (pytz_fromutc (fst ti) (snd ti) t))) ts')
                  | r => tz_jres (fun _ => junsupported) r
                  end
              | _, _ => junsupported end
